@@ -580,6 +580,16 @@ func vcModGhostAll(name string)              {}
 func vcSameSlice[T any](a, b []T) bool        { return len(a) == len(b) && (len(a) == 0 || &a[0] == &b[0]) }
 func vcByteStr(c byte) string                { return string([]byte{c}) }
 
+// vcTok is an abstract content value: what a reader yields / a writer has received / a file holds.
+// Tokens are compared, never inspected: vcTokBytes(b) is a function of the bytes of b, vcTokStr(s) of
+// the string, vcTokCat(a, b) is concatenation (vcTokEmpty() is its unit).
+type vcTok = int
+
+func vcTokBytes(b []byte) vcTok    { return 0 }
+func vcTokStr(s string) vcTok      { return 0 }
+func vcTokCat(a, b vcTok) vcTok    { return 0 }
+func vcTokEmpty() vcTok            { return 0 }
+
 // vcSeq is a mathematical sequence value (the contents of a slice's backing store at one moment);
 // recursive specification functions take these, never the heap.  Indices are those of the backing
 // store: element i of slice s is vcSeqAt(vcElemsOf(s), vcOff(s)+i); for the executable version the
